@@ -9,6 +9,8 @@ Against every organisation the case runs
   * `searchc`  : search_databases_with_flat_query (jaccard / containment / max-containment, thresholds on score
                  boundaries, best-only on/off) -- printed as a canonical multiset of (md5, score)
   * `pfallc`   : prefetch over all collections -- canonical multiset of (md5, containment)
+  * `xpfc`     : what `sourmash prefetch` reports (search.prefetch_database: the rows of Index.prefetch that pass
+                 PrefetchResult.pass_threshold, score = f_match_query) -- canonical multiset, implementation-only
   * `xgd/xnext`: gather in prefetch mode and in on-demand (`Index.peek`) mode -- per round md5 and all numbers
 and, for organisations made of list-like containers only (LinearIndex / zip keep insertion order), the exact
 `search` / `pfall` / `gd` / `next` ops of the gather stream, which the model predicts including order and ties.
@@ -141,6 +143,7 @@ def gen_case(rng, flavour):
             if all(k in ("lin", "zip", "lazy") for _, k, _ in org):
                 lines.append(f"pfall 0 {thr} {dbs}")
             lines.append(f"pfallc 0 {thr} {dbs}")
+            lines.append(f"xpfc 0 {thr} {dbs}")
         return lines
     # gather flavour: database sketches at one scaled value
     r = rng.random()
@@ -206,6 +209,8 @@ def brute_search(sigs, q, members, st, bo, tnum, tden):
 
 
 D6_SIG = "C08:gather-mode-or-organisation-dependence:query-finer-than-db:threshold_bp>0"
+# finding C08.5 (fixed): `sourmash prefetch` / search.prefetch_database died on `assert result.pass_threshold`
+PF_ASSERT_SIG = "C08:cli:prefetch-AssertionError:query-finer-than-db:threshold_bp>0"
 
 
 def oracle(case, impl):
@@ -223,9 +228,16 @@ def oracle(case, impl):
             bad.append((idx, "C08:search-raises-ValueError-varN<0-from-jaccard-ani",
                         f"`{op[:70]}`: building a SearchResult raised 'varN <0.0' (jaccard_to_distance, finding D16)"))
             continue
-        if w[0] in ("searchc", "pfallc"):
+        if w[0] == "xpfc" and obs.startswith("x err AssertionError"):
+            finer = q is not None and int(w[2]) > 0 and any(
+                sg["scaled"] > q["scaled"] for k, sg in sigs.items() if 0 < k < 60)
+            bad.append((idx, PF_ASSERT_SIG if finer else "C08:prefetch-database-raises:AssertionError",
+                        f"`{op[:70]}`: search.prefetch_database raised AssertionError (a row of Index.prefetch below "
+                        f"threshold_bp; regression of finding C08.5)"))
+            continue
+        if w[0] in ("searchc", "pfallc", "xpfc"):
             key = (w[0],) + tuple(w[1:6] if w[0] == "searchc" else w[1:3])
-            groups.setdefault(key, []).append((idx, obs))
+            groups.setdefault(key, []).append((idx, obs[2:] if w[0] == "xpfc" else obs))
         elif w[0] == "xgd":
             cur = {"idx": idx, "key": tuple(w[1:4]), "mode": w[4], "rounds": [], "ok": obs.startswith("x ok")}
             runs.append(cur)
@@ -261,6 +273,8 @@ def oracle(case, impl):
             sig = f"C08:{what}-depends-on-organisation"
             w = case[idx].split()
             dbslots = [int(x) for x in (w[6:] if w[0] == "searchc" else w[3:])]
+            if key[0] == "xpfc":
+                what, sig = "prefetch", "C08:prefetch-database-depends-on-organisation"
             if key[0] == "searchc" and key[2] == "1" and o.startswith("ok") and ref.startswith("ok"):
                 # best-only prints the top score only: the same hashes at two scaled values can change it
                 members = {m for d in dbslots for m in containers.get(d, ("?", []))[1]}
